@@ -265,9 +265,11 @@ Definition check_case (sel : Z) (cs : list int * (list (list int) * list (list i
       else
         let on (p : Z) := Z.eqb sel 0 || Z.eqb sel p in
         if Z.eqb (c_kind c) 1 then
-          vthen (corr_sched c rs)
-          (vthen (if on 4 then mon_C04 rs else vok)
+          (* the property monitors first: a violation is reported as such even when the probe records
+             no longer match the cursor model *)
+          vthen (if on 4 then mon_C04 rs else vok)
           (vthen (if on 3 then mon_C03_detect c rs else vok)
-                 (if on 3 then mon_C03_sched c rs else vok)))
+          (vthen (if on 3 then mon_C03_sched c rs else vok)
+                 (corr_sched c rs)))
         else if on 5 then mon_C05 rs else vok
   end.
